@@ -366,7 +366,7 @@ func famPfmDenom(r *hx.Rng, o *hx.Out) {
 
 func famPFM(t *testing.T, r *hx.Rng, o *hx.Out) {
 	famPfmDenom(r, o)
-	worlds := hx.N(4, 40)
+	worlds := hx.N(4, 24)
 	for i := 0; i < worlds; i++ {
 		n := 4
 		if hx.Tier() == "thorough" && i%2 == 1 {
